@@ -374,7 +374,29 @@ def check_b(ck, repo):
                 node = rd.node_of(x)
                 dep = node is not None and rd.depends_on(ast.Name(id=M, ctx=ast.Load()), node, set(), {"permutation_"})
                 okv = src_.replace(" ", "") in (f"range({y}.shape[1])", f"range(0,{y}.shape[1])") and dep and f"{y}.copy()" in ydef
-        if okv:
+        # the opposite reading of the permutation: columns GATHERED by it, out[:, j] = y[:, M[j]]
+        gathered = None
+        if not vec:
+            for r0 in [r0 for r0 in own_nodes(ptr.node) if isinstance(r0, ast.Return) and isinstance(r0.value, ast.Tuple) and len(r0.value.elts) == 2]:
+                v0 = r0.value.elts[1]
+                if isinstance(v0, ast.Subscript) and _t(v0.value) == y and isinstance(v0.slice, ast.Tuple) and len(v0.slice.elts) == 2 and _t(v0.slice.elts[0]) == ":":
+                    idx_ = v0.slice.elts[1]
+                    at_ = r0
+                    if isinstance(idx_, ast.Name):
+                        defs_ = [s0 for s0 in own_nodes(ptr.node) if isinstance(s0, ast.Assign) and len(s0.targets) == 1 and isinstance(s0.targets[0], ast.Name) and s0.targets[0].id == idx_.id]
+                        if len(defs_) == 1:
+                            idx_, at_ = defs_[0].value, defs_[0]
+                    if isinstance(idx_, (ast.ListComp, ast.GeneratorExp)) and len(idx_.generators) == 1 and not idx_.generators[0].ifs and isinstance(idx_.generators[0].target, ast.Name) \
+                            and isinstance(idx_.elt, ast.Subscript) and isinstance(idx_.elt.value, ast.Name) and _t(idx_.elt.slice) == idx_.generators[0].target.id \
+                            and _t(idx_.generators[0].iter).replace(" ", "") in (f"range({y}.shape[1])", f"range(0,{y}.shape[1])", f"range(len({idx_.elt.value.id}))"):
+                        M = idx_.elt.value.id
+                        rd = ex.rd(ptr)
+                        node = rd.node_of(at_)
+                        if node is not None and rd.depends_on(ast.Name(id=M, ctx=ast.Load()), node, set(), {"permutation_"}):
+                            gathered = (r0, M)
+        if gathered:
+            ck.violated("C13.b", ptr, gathered[0], f"the probability branch returns {y}[:, [{gathered[1]}[i] for i ..]]: column j of the result is column {gathered[1]}[j] of the input, the inverse of moving column i to position {gathered[1]}[i]; the two agree only when the permutation is its own inverse, so get_fct_inv().transform does not bring the columns back")
+        elif okv:
             ck.holds("C13.b", ptr, vec[0], "probability columns are moved to their permuted position on a copy (all columns at once)")
         else:
             ck.unknown("C13.b", ptr, "yp[:, new_perm[i]] = y[:, i]", "probability branch: no column-by-column move found, and no one-statement scatter Y[:, [M[i] for i in range(n)]] = y this rule reads")
